@@ -19,6 +19,9 @@ XSTRATS = "build,bfs,scc"
 def plan(tier, seed):
     nseeds = 256 if tier == "quick" else 768
     units = [("proc", s, "small") for s in range(nseeds)] + [("proc", s, "big") for s in range(0, nseeds, 8)]
+    # the same dumps from processes with another history: the batch in reverse order, and every network alone in a fresh process
+    units += [("proc", 0, "small:rev"), ("proc", 0, "big:rev")]
+    units += [("proc", 0, "one:" + json.dumps(list(map(lambda x: list(x) if isinstance(x, tuple) else x, spec)))) for spec in batch("small") + batch("big")]
     K = U.kernel()
     inproc = [("k", k) for k in K] + [("idx", 2, i) for i in (U.U2c_indices() if tier == "quick" else range(256))]
     inproc += [("i3", i) for i in U.shard(list(range(1444)), seed, 16 if tier == "quick" else 2)]
@@ -28,7 +31,8 @@ def plan(tier, seed):
         "units": units,
         "universes": {"hash seeds (one interpreter process each)": nseeds, "networks per process (batch 'small')": len(batch("small")),
                       "networks per process (batch 'big', every 8th seed)": len(batch("big")), "in-process networks": len(inproc)},
-        "bounds": {"cross-process": f"PYTHONHASHSEED = 0..{nseeds - 1}; strategies {XSTRATS} + both control strategies; the iteration order of "
+        "bounds": {"other process histories": "the batch in reverse order; every network alone in a fresh process",
+                   "cross-process": f"PYTHONHASHSEED = 0..{nseeds - 1}; strategies {XSTRATS} + both control strategies; the iteration order of "
                    "set(variable names) is recorded per process and every permutation of every <=4-element name set of the batch must have "
                    "been observed (checked; otherwise the run is a harness error, not a pass)",
                    "in-process": "second run in the same process; run after each entry of the preceding-call menu (build another network, "
@@ -51,7 +55,8 @@ def menu():
 
     def fallback():
         sd = SuccessionDiagram.from_rules("X, !Y\nY, X\nZ, Z")
-        sd.config["attractor_candidates_limit"] = 1
+        sd.config["attractor_candidates_limit"] = 0
+        sd.config["retained_set_optimization_threshold"] = 0
         sd.config["debug"] = False
         for i in list(sd.node_ids()):
             sd.node_attractor_seeds(i, compute=True, symbolic_fallback=True)
@@ -86,7 +91,8 @@ def menu():
         import io, contextlib
         sd = SuccessionDiagram.from_rules("X, !Y\nY, X")
         sd.config["debug"] = True
-        sd.config["attractor_candidates_limit"] = 1
+        sd.config["attractor_candidates_limit"] = 0
+        sd.config["retained_set_optimization_threshold"] = 0
         with contextlib.redirect_stdout(io.StringIO()):
             try:
                 sd.node_attractor_seeds(0, compute=True, symbolic_fallback=True)
@@ -96,6 +102,13 @@ def menu():
     return [("again", lambda: None), ("other_build", other_build), ("fallback", fallback), ("control", control),
             ("cand_limit_error", cand_limit_error), ("motif_limit_error", motif_limit_error), ("pickle_other", pickle_other),
             ("debug_fallback", debug_fallback)]
+
+
+def safe_dump(net, st):
+    try:
+        return full_dump(net, st)
+    except Exception as e:
+        return f"EXC {type(e).__name__}: {e}"
 
 
 def run_proc(seed, bname):
@@ -114,6 +127,8 @@ def run_unit(unit):
     if kind == "proc":
         _, seed, bname = unit
         d = run_proc(seed, bname)
+        if not bname.startswith(("small", "big")) or ":" in bname:
+            d["orders"] = {}
         for case, sha in d["dumps"].items():
             res["outcomes"].add(("dump", case, sha))
             res["nontrivial"].add(case)
@@ -132,10 +147,10 @@ def run_unit(unit):
             res["evals"] += 1
             try:
                 with case_timeout(300):
-                    base = full_dump(net, st)
+                    base = safe_dump(net, st)
                     for name, fn in menu():
                         fn()
-                        again = full_dump(net, st)
+                        again = safe_dump(net, st)
                         res["transitions"] += 1
                         if again != base:
                             res["violations"].append(V("dump-differs-in-same-process", {"kind": "inproc", "net": list(spec), "strategy": st, "after": name},
@@ -174,8 +189,9 @@ def finalize(agg, plan):
     for case, ss in sorted(shas.items()):
         if len(ss) > 1:
             spec, st = json.loads(case)
-            vio.append(V("dump-differs-across-hash-seeds", {"kind": "proc", "net": spec, "strategy": st},
-                         f"{case}: {len(ss)} different dumps across PYTHONHASHSEED values", site="hashseed"))
+            vio.append(V("dump-differs-across-processes", {"kind": "proc", "net": spec, "strategy": st},
+                         f"{case}: {len(ss)} different dumps across interpreter processes (hash seeds 0..N, batch order reversed, "
+                         f"network alone in a fresh process)", site="process"))
     incomplete = []
     for s, os_ in orders.items():
         n = len(s.split(","))
@@ -211,5 +227,16 @@ def replay(case):
             if l.startswith("SHA "):
                 seen.add(l[4:])
         if len(seen) > 1:
-            return [V("dump-differs-across-hash-seeds", case, f"{len(seen)} dumps within seeds 0..{seed}", site="hashseed")]
+            return [V("dump-differs-across-processes", case, f"{len(seen)} dumps within seeds 0..{seed}", site="process")]
+    # alone in a fresh process vs inside the batches (forward and reversed)
+    for bname in ("small", "small:rev", "big", "big:rev"):
+        try:
+            d = run_proc(0, bname)
+        except Exception:
+            continue
+        sha = d["dumps"].get(json.dumps([case["net"], case["strategy"]]))
+        if sha is not None:
+            seen.add(sha)
+    if len(seen) > 1:
+        return [V("dump-differs-across-processes", case, "differs between an isolated process and a batch process", site="process")]
     return []
